@@ -14,27 +14,46 @@ structure BrkParams (inpW : Bytes) (sd : StateDef) (δ : Nat) (ms mw mw0 : M κ)
     ∃ nd, sd.memchr = some nd ∧ SkipOk nd inpW npw0 (ms.c.nextPos - 1 + δ - npw0)
   c0 : mw0.c = { mw.c with nextPos := npw0 }
   x0 : mw0.x = mw.x
-  r0 : mw0.r = (leaveSeq mw).r
+  r0 : (leaveSeq mw0).r = (leaveSeq mw).r
+  q0 : hasSeq sd = false → chSeqOf mw0.r = none
 
 theorem BrkParams.congr {inpW : Bytes} {sd : StateDef} {δ : Nat} {ms mw mw0 ms' mw' : M κ} {npw0 : Nat}
     (h : BrkParams inpW sd δ ms mw mw0 npw0) (h1 : ms'.c = ms.c) (h2 : mw'.c = mw.c) (h3 : mw'.x = mw.x)
     (h4 : (leaveSeq mw').r = (leaveSeq mw).r) : BrkParams inpW sd δ ms' mw' mw0 npw0 :=
-  ⟨by rw [h1]; exact h.np, by rw [h1]; exact h.skip, by rw [h2]; exact h.c0, by rw [h3]; exact h.x0, by rw [h4]; exact h.r0⟩
+  ⟨by rw [h1]; exact h.np, by rw [h1]; exact h.skip, by rw [h2]; exact h.c0, by rw [h3]; exact h.x0, by rw [h4]; exact h.r0, h.q0⟩
 
 section
 variable {env : Env κ} {inpS inpW : Bytes} {δ : Nat} {K : Nat → κ → κ → Prop}
 
-theorem lock_of_break_both {tbl : Table} {fs : FlagMap} {d : Nat} {ms mw : M κ}
-    (h : SPanic (breakOnEndOfInput inpS ms).2 ∨
-      ∃ c c', (breakOnEndOfInput inpS ms).2 = some (.endOfInput c) ∧
-        (breakOnEndOfInput inpW mw).2 = some (.endOfInput c') ∧ c' + d = c + δ ∧
-        K d (breakOnEndOfInput inpS ms).1.x.sink (breakOnEndOfInput inpW mw).1.x.sink) :
-    LockOut tbl fs inpW δ K (breakOnEndOfInput inpS ms) (breakOnEndOfInput inpW mw) := by
-  rcases h with hp | ⟨c, c', h1, h2, h3, h4⟩
+/-- a common break as a step outcome -/
+theorem lock_of_break_both (F : Frame inpS inpW δ) (hcl : Closed inpS inpW δ) {fs : FlagMap} {st : StateId} {sd : StateDef}
+    {d : Nat} {ab : Ab} {sm : SeqMode} {ms mw : M κ} (cx : StepCtx env.tbl fs st sd ms.c)
+    (h : MRel δ d 0 ab sm ms mw) (hP : ab.P = true)
+    (hfl : ms.c.isLast = false → (fs st).2.le ab.boundary = true ∧ (ab.Sn = true → ab.St = true))
+    (hsm : sm = .none ∨ (sm = .inSeq ∧ hasSeq sd = true))
+    (hdebt : 0 < d → hasEoc sd = true) (hK : K d ms.x.sink mw.x.sink) :
+    LockOut env.tbl fs inpW δ K true (breakOnEndOfInput inpS ms) (breakOnEndOfInput inpW mw) := by
+  have hsm' : sm ≠ .stale := by
+    rcases hsm with h | ⟨h, _⟩ <;> rw [h] <;> intro hh <;> cases hh
+  rcases break_both F hcl h hP (fun hl => (hfl hl).2) hsm' hK with hp | ⟨c, c', h1, h2, h3, h4, h5, h6, h7, h8, h9⟩
   · exact Or.inl hp
   · right
     rw [h1, h2]
-    exact ⟨d, h3, h4⟩
+    refine ⟨rfl, d, h3, h4, by rw [h5, h6]; exact h.sim, by rw [h5, h6]; exact h.pc, fun hl => ?_⟩
+    have hl' : ms.c.isLast = false := by
+      have := breakOnEndOfInput_isLast inpS ms
+      rw [← this]; exact hl
+    have hbr := h9 hl'
+    refine ⟨_, by
+      rw [cx.flagsOf h7 h8]
+      exact ⟨hbr.c, hbr.r.weaken (hfl hl').1, hbr.sim⟩, ?_⟩
+    intro sd' hlook
+    rw [h7, cx.st_eq, cx.look] at hlook
+    cases hlook
+    refine ⟨?_, hdebt, fun hpos => absurd hpos (Nat.lt_irrefl 0)⟩
+    rcases hsm with h' | ⟨h', hs⟩
+    · left; rw [h']; rfl
+    · right; rw [h']; exact ⟨by simp, hs, by rw [h8]; exact cx.ent⟩
 
 /-- the arm patterns that are not sequences are skipped by `runSeqArms` -/
 theorem armOk_seq {tbl : Table} {fs : FlagMap} {st : StateId} {ab : Ab} {arm : Arm} {bs : List UInt8} {ic : Bool}
@@ -45,32 +64,33 @@ theorem armOk_seq {tbl : Table} {fs : FlagMap} {st : StateId} {ab : Ab} {arm : A
 
 /-- **Sequence arms**, the two runs reading the same consumed byte. -/
 theorem runSeqArms_lock (F : Frame inpS inpW δ) (hops : OpsSim env.ops inpS inpW δ K) {fs : FlagMap} {st : StateId}
-    {sd : StateDef} (ch : Option UInt8) :
+    {sd : StateDef} (ch : Option UInt8) (eoi : Bool) :
     ∀ (arms : List Arm), (∀ a ∈ arms, a ∈ sd.arms) → ∀ {sm : SeqMode} {ms mw mw0 : M κ} {npw0 : Nat},
     StepCtx env.tbl fs st sd ms.c → MRel δ 0 0 (fs st).2.inStep sm ms mw → K 0 ms.x.sink mw.x.sink →
     (sm = .none ∨ (sm = .stale ∧ (arms.any fun a => isSeqPat a.pat) = true)) →
     (ch.isSome = true → ms.c.nextPos ≤ inpS.length) → (ms.c.isLast = true → Closed inpS inpW δ) →
+    (eoi = false → ms.c.isLast = false) →
     BrkParams inpW sd δ ms mw mw0 npw0 →
     match runSeqArms env inpS ch arms ms with
     | .inr ms2 => ∃ mw2, runSeqArms env inpW ch arms mw = .inr mw2 ∧ MRel δ 0 0 (fs st).2.inStep .none ms2 mw2 ∧
         ms2.c = ms.c ∧ ms2.x = ms.x ∧ mw2.c = mw.c ∧ mw2.x = mw.x ∧ (leaveSeq mw2).r = (leaveSeq mw).r
-    | .inl rs => (∃ rw, runSeqArms env inpW ch arms mw = .inl rw ∧ LockOut env.tbl fs inpW δ K rs rw) ∨
-        (¬ Closed inpS inpW δ ∧ BreakOut env.tbl fs env.ops inpS inpW δ 0 ms.x mw0 rs) := by
+    | .inl rs => (∃ rw, runSeqArms env inpW ch arms mw = .inl rw ∧ LockOut env.tbl fs inpW δ K eoi rs rw) ∨
+        BreakOut env.tbl fs env.ops inpS inpW δ 0 ms.x mw0 rs := by
   intro arms
   induction arms with
   | nil =>
-    intro _ sm ms mw mw0 npw0 cx hrel hK hsm _ _ _
+    intro _ sm ms mw mw0 npw0 cx hrel hK hsm _ _ _ _
     rcases hsm with hsm | ⟨_, hh⟩
     · subst hsm
       exact ⟨mw, rfl, hrel, rfl, rfl, rfl, rfl, rfl⟩
     · simp at hh
   | cons arm rest ih =>
-    intro hsub sm ms mw mw0 npw0 cx hrel hK hsm hchin hil hbp
+    intro hsub sm ms mw mw0 npw0 cx hrel hK hsm hchin hil heoi hbp
     have hsubr : ∀ a ∈ rest, a ∈ sd.arms := fun a ha => hsub a (List.mem_cons_of_mem _ ha)
     cases hseq : isSeqPat arm.pat with
     | false =>
       rw [runSeqArms_skip inpS ch arm rest ms hseq, runSeqArms_skip inpW ch arm rest mw hseq]
-      refine ih hsubr cx hrel hK ?_ hchin hil hbp
+      refine ih hsubr cx hrel hK ?_ hchin hil heoi hbp
       rcases hsm with h | ⟨h1, h2⟩
       · exact Or.inl h
       · simp only [List.any_cons, hseq, Bool.false_or] at h2
@@ -84,8 +104,8 @@ theorem runSeqArms_lock (F : Frame inpS inpW δ) (hops : OpsSim env.ops inpS inp
           | .inr ms2 => ∃ mw2, runSeqArms env inpW ch rest (leaveSeq (enterSeq mw)) = .inr mw2 ∧
               MRel δ 0 0 (fs st).2.inStep .none ms2 mw2 ∧
               ms2.c = ms.c ∧ ms2.x = ms.x ∧ mw2.c = mw.c ∧ mw2.x = mw.x ∧ (leaveSeq mw2).r = (leaveSeq mw).r
-          | .inl rs => (∃ rw, runSeqArms env inpW ch rest (leaveSeq (enterSeq mw)) = .inl rw ∧ LockOut env.tbl fs inpW δ K rs rw) ∨
-              (¬ Closed inpS inpW δ ∧ BreakOut env.tbl fs env.ops inpS inpW δ 0 ms.x mw0 rs) := by
+          | .inl rs => (∃ rw, runSeqArms env inpW ch rest (leaveSeq (enterSeq mw)) = .inl rw ∧ LockOut env.tbl fs inpW δ K eoi rs rw) ∨
+              BreakOut env.tbl fs env.ops inpS inpW δ 0 ms.x mw0 rs := by
         intro _
         have hcs' : (leaveSeq (enterSeq ms)).c = ms.c := hlcs.trans hcs
         have hxs' : (leaveSeq (enterSeq ms)).x = ms.x := hlxs.trans hxs
@@ -95,7 +115,7 @@ theorem runSeqArms_lock (F : Frame inpS inpW δ) (hops : OpsSim env.ops inpS inp
           rw [leaveSeq_idem, leaveSeq_enterSeq_r]
         have := ih hsubr (sm := .none) (ms := leaveSeq (enterSeq ms)) (mw := leaveSeq (enterSeq mw)) (mw0 := mw0) (npw0 := npw0)
           (by rw [hcs']; exact cx) hlv (by rw [hxs', hxw']; exact hK) (Or.inl rfl) (by rw [hcs']; exact hchin)
-          (by rw [hcs']; exact hil) (hbp.congr hcs' hcw' hxw' hrw')
+          (by rw [hcs']; exact hil) (by rw [hcs']; exact heoi) (hbp.congr hcs' hcw' hxw' hrw')
         revert this
         cases runSeqArms env inpS ch rest (leaveSeq (enterSeq ms)) with
         | inr ms2 =>
@@ -127,12 +147,12 @@ theorem runSeqArms_lock (F : Frame inpS inpW δ) (hops : OpsSim env.ops inpS inp
             rw [List.any_eq_true]
             exact ⟨arm, hsub arm List.mem_cons_self, hseq⟩
           -- the split run needs more input
-          have hbreak : ms.c.isLast = false → ¬ Closed inpS inpW δ →
+          have hbreak : ms.c.isLast = false →
               BreakOut env.tbl fs env.ops inpS inpW δ 0 ms.x mw0 (breakOnEndOfInput inpS (enterSeq ms)) := by
-            intro hl _
+            intro hl
             have hbp' := hbp.congr (ms' := enterSeq ms) (mw' := enterSeq mw) hcs hcw hxw (by rw [leaveSeq_enterSeq_r])
             exact breakOut_of_split (by rw [hcs]; exact cx) he (by rw [hcs]; exact hl) (Or.inr ⟨rfl, hinSeq⟩)
-              (fun h => absurd h (Nat.lt_irrefl 0)) npw0 hbp'.np hbp'.skip hbp'.c0 hbp'.x0 hbp'.r0 ms.x
+              (fun h => absurd h (Nat.lt_irrefl 0)) npw0 hbp'.np hbp'.skip hbp'.c0 hbp'.x0 hbp'.r0 hbp'.q0 ms.x
               (by rw [hxs]) (by rw [hxs]) (Or.inl ⟨rfl, by rw [hxs]⟩)
           rcases hfirst with ⟨hsame, hbound⟩ | ⟨hneed, hncl, hnl⟩
           · rw [hsame]
@@ -140,17 +160,23 @@ theorem runSeqArms_lock (F : Frame inpS inpW δ) (hops : OpsSim env.ops inpS inp
             | mismatch => exact hrecur trivial
             | needMore =>
               simp only
-              by_cases hcl : Closed inpS inpW δ
+              by_cases hcl : eoi = true ∧ Closed inpS inpW δ
               · left
-                refine ⟨_, rfl, ?_⟩
-                apply lock_of_break_both
-                exact break_both F hcl he hP (by intro hh; cases hh) (by rw [hxs, hxw]; exact hK)
+                obtain ⟨he1, he2⟩ := hcl
+                subst he1
+                exact ⟨_, rfl, lock_of_break_both F he2 (by rw [hcs]; exact cx) he rfl
+                  (fun _ => ⟨by rw [Ab.inStep_boundary cx.ok.p2]; rw [Ab.le_iff]; simp, fun g => cx.ok.sn2 g⟩)
+                  (Or.inr ⟨rfl, hinSeq⟩)
+                  (fun h => absurd h (Nat.lt_irrefl 0)) (by rw [hxs, hxw]; exact hK)⟩
               · right
                 have hl : ms.c.isLast = false := by
                   cases hh : ms.c.isLast with
                   | false => rfl
-                  | true => exact absurd (hil hh) hcl
-                exact ⟨hcl, hbreak hl hcl⟩
+                  | true =>
+                    cases he1 : eoi with
+                    | false => rw [heoi he1] at hh; cases hh
+                    | true => exact absurd ⟨he1, hil hh⟩ hcl
+                exact hbreak hl
             | matched =>
               simp only
               left
@@ -180,7 +206,7 @@ theorem runSeqArms_lock (F : Frame inpS inpW δ) (hops : OpsSim env.ops inpS inp
             simp only
             right
             have hl : ms.c.isLast = false := by rw [← hcs]; exact hnl
-            exact ⟨hncl, hbreak hl hncl⟩
+            exact hbreak hl
       | byte b => rw [hpat] at hseq; cases hseq
       | alpha => rw [hpat] at hseq; cases hseq
       | whitespace => rw [hpat] at hseq; cases hseq
@@ -259,7 +285,7 @@ theorem runSeqArms_end {fs : FlagMap} {st : StateId} {sd : StateDef} :
           simp only
           have hbp' := hbp.congr (ms' := enterSeq ms) (mw' := enterSeq mw) hcs hcw hxw (by rw [leaveSeq_enterSeq_r])
           exact breakOut_of_split (by rw [hcs]; exact cx) he (by rw [hcs]; exact hl) (Or.inr ⟨rfl, hinSeq⟩)
-            hdebt npw0 hbp'.np hbp'.skip hbp'.c0 hbp'.x0 hbp'.r0 ms.x
+            hdebt npw0 hbp'.np hbp'.skip hbp'.c0 hbp'.x0 hbp'.r0 hbp'.q0 ms.x
             (by rw [hxs]) (by rw [hxs]) (Or.inl ⟨rfl, by rw [hxs]⟩)
       | byte b => rw [hpat] at hseq; cases hseq
       | alpha => rw [hpat] at hseq; cases hseq
